@@ -68,10 +68,6 @@ def _dataclass_parameters(class_: Class) -> list[Parameter]:
     # Fetch `@dataclass` arguments if any.
     dec_args = _dataclass_arguments(class_.decorators)
 
-    # Parameters not added to `__init__`, return empty list.
-    if dec_args.get("init") == "False":
-        return []
-
     # All parameters marked as keyword-only.
     kw_only = dec_args.get("kw_only") == "True"
 
@@ -190,6 +186,12 @@ def _set_dataclass_init(class_: Class) -> None:
 
     # Add current class parameters.
     parameters.extend(_dataclass_parameters(class_))
+
+    # With `@dataclass(init=False)` no `__init__` method is generated. The fields are still inherited
+    # by subclasses that are dataclasses: they were computed (and cached) above, before the members
+    # annotated as `InitVar` get deleted.
+    if _dataclass_arguments(class_.decorators).get("init") == "False":
+        return
 
     # Create `__init__` method with re-ordered parameters.
     init = Function(
